@@ -56,9 +56,11 @@ CLAIMED['C01'] = dict(
         'boundary included, boxes inclusive minus holes; answers invariant under rotation, reversal, re-closing and constructor normalisation; '
         'bounding-box prefilter never changes an answer. The box-hole boundary clause is REFUTED (finding D31). Tied to the code by an in-Coq '
         'correspondence on exhaustive grid / half-grid queries (all rotations and windings in thorough), random star polygons, direct '
-        'find_line_intersection cases, plus an independent exact Fraction even-odd oracle on every query.',
+        'find_line_intersection cases, plus an independent exact Fraction even-odd oracle on every query. For axis-aligned rectangles, triangles and EVERY strictly convex '
+        'ring (any length, rotation, winding) the even-odd interior is proved to be the geometric interior (strictly left of every edge; Props/C01b.v, 22 theorems), and a GeoBox and '
+        'its polygon form are proved to agree off the frame and differ exactly on it.',
    note='Trusted: Coq kernel + vm_compute; hand statement that GeomM mirrors the loops (checked by the translator tie, DESIGN 9.6, and by correspondence); harness. Not proved: polygonal Jordan '
-        '(even-odd interior of a simple ring = topological interior); IEEE rounding / 1e-10 snapping off the exact grids; antimeridian-spanning shapes '
+        'for NON-convex simple rings (even-odd interior = topological interior; proved for rectangles, triangles, strictly convex rings); IEEE rounding / 1e-10 snapping off the exact grids; antimeridian-spanning shapes '
         '(excluded by the property). No axioms.',
    technique='Coq proof (exact-arithmetic ray cast = even-odd crossing number; parity lemma; rotation/reversal invariance) + in-Coq correspondence on exhaustive grids + translator tie (find_line_intersection with exact quotients proved equal to the cross-multiplied model, ray-cast loop, polygon/box membership: 21 GenEq lemmas)',
    ref='5/C01, 9')
@@ -173,7 +175,10 @@ CLAIMED['C12'] = dict(
         'from the start cell through touching cells (sound, complete, terminating on the Niemeyer instance, no duplicates); that a multi-shape hashes to the union of '
         'its members; that hash_collection maps each cell to the aggregation of exactly the shapes whose own hash set contains it, in collection order (count by '
         'default), and hash_coordinates likewise; a point hashes to its cell (via C11). "Exactly the touched cells" holds under the hypothesis that the touched cells '
-        'are connected to the start cell: 8-connectivity of the cells touched by a shape and geometric truth of the per-cell box test are NOT proved. Tied to the code '
+        'are connected to the start cell. That hypothesis is PROVED (Props/C12b.v, 21 theorems) when the touched cells form a rectangle or an L-convex set of grid cells (4-neighbour moves suffice), '
+        'the concrete _get_surrounding on geohash strings is proved to be the 8-neighbourhood of the integer cell index away from the grid border (all bases, all lengths), and for the geometric '
+        'closed-box overlap test the Niemeyer flood is proved to return exactly the cells sharing a point with an axis-aligned query box (with termination). NOT proved: connectivity for general '
+        'shapes, and that the implementation per-cell test (intersects_shape, C02) is geometric truth. Tied to the code '
         'by an in-Coq correspondence that instantiates the per-cell test with the implementation own answers over an enlarged window and compares with the model flood '
         'and the full touched set. H3 clauses: no theorem, fixed corpus only. Finding D12b (east column at lon 180).',
    note='Trusted: Coq kernel + vm_compute; FloodM mirrors the loop (translator tie, DESIGN 9.6, + correspondence); C11 codec model for neighbours; harness. No axioms.',
@@ -187,11 +192,15 @@ CLAIMED['C08'] = dict(
         '(so the stored coordinate denotes the same point of the sphere) and that _from_xyz inverts xyz for every stored pair away from the poles (at the poles the point does '
         'not depend on the longitude). Tied to the code by an in-Coq correspondence on ints, floats and numeric strings (multiples of 90/180/360, +-0.0, one-ulp neighbours '
         'of the range ends, dyadics to +-1e5): exact agreement wherever fractions.Fraction shows the float loops exact, 4 ulp otherwise, with the proved range and idempotence '
-        'facts demanded of the implementation output inside Coq; xyz round trip observed numerically.',
+        'facts demanded of the implementation output inside Coq; xyz round trip observed numerically. A second, BIT-EXACT IEEE binary64 model of the constructor over Coq primitive '
+        'floats (CoordF.v) is tied to the code by its own translator tie and a bit-for-bit correspondence on every kind of finite double (about 10% with genuinely rounding loop operations): '
+        'for all doubles, range / idempotence / fuel-monotonicity follow from the loop exits with no axioms (C08f_range, C08f_idempotent), and termination within 559 iterations is '
+        'proved for all doubles in +-1e5 via Flocq (C08f_terminates, C08f_total); C08f_diverges_2p61 shows the bound is needed (Coordinate(0.0, 2.0**61) never returns).',
    note='Trusted: Coq kernel + vm_compute; CoordM mirrors the loops (translator tie, DESIGN 9.6, + correspondence); harness exactness guard. Real-number part: Coq Reals axioms '
-        '(ClassicalDedekindReals.sig_forall_dec, sig_not_dec, functional_extensionality_dep) as printed per theorem. Not proved: float rounding inside the loops for non-dyadic '
-        'inputs (bounded by the 4-ulp comparison); libm in xyz/_from_xyz.',
-   technique='Coq proof (fuelled loops proved total, orbit characterisation, uniqueness; trigonometric periodicity over R) + in-Coq correspondence with an exactness guard + translator tie (Coordinate.__init__ while-loops as condition/step, __eq__, __hash__)',
+        '(ClassicalDedekindReals.sig_forall_dec, sig_not_dec, functional_extensionality_dep) as printed per theorem; the float termination theorems additionally the stdlib FloatAxioms '
+        '(add_spec, sub_spec, leb_spec, ltb_spec, Prim2SF_valid, SF2Prim_Prim2SF, Prim2SF_SF2Prim), Classical_Prop.classic and the primitive float/int63 operations. Not proved: that the float '
+        'result denotes the same point as the raw input when a loop operation rounds (bounded by the 4-ulp comparison; the float theorems give range, idempotence, termination); libm in xyz/_from_xyz.',
+   technique='Coq proof (fuelled loops proved total, orbit characterisation, uniqueness; trigonometric periodicity over R; binary64 model over primitive floats with Flocq termination proof) + in-Coq correspondence (exact rationals with an exactness guard; bit-exact floats) + translator tie (Coordinate.__init__ while-loops as condition/step, __eq__, __hash__; rational and float back ends)',
    ref='5/C08, 9')
 CLAIMED['C13'] = dict(
    text='PARTIAL. Machine-checked proof (token level: keyword, Z/M marker, nested coordinate tuples; any number of parts, holes, vertices) that reading what was written with the '
